@@ -448,6 +448,15 @@ func (p *proxyConn) writeResponse(res *http.Response) error {
 		}
 	}
 
+	// An HTTP/1.0 client does not understand chunked coding: answer in its protocol version
+	// and delimit a body of unknown length by closing the connection.
+	if !req.ProtoAtLeast(1, 1) && res.ProtoAtLeast(1, 1) && !(req.Method == http.MethodConnect && res.StatusCode/100 == 2) {
+		res.Proto, res.ProtoMajor, res.ProtoMinor = "HTTP/1.0", 1, 0
+		if res.ContentLength == -1 && !isHeaderOnlySpec(res) {
+			res.Close = true
+		}
+	}
+
 	if res.Close {
 		res.Header.Add("Connection", "close")
 	}
